@@ -451,6 +451,40 @@ Proof.
       rewrite (pull_ignore_mono _ _ (mono_nx n2 (Nat.max n n2) ltac:(lia)) _ _ _ HA). split; auto.
 Qed.
 
+Lemma scan_nil : forall k, scan k [] = (None, []).
+Proof. destruct k; reflexivity. Qed.
+
+Lemma scan_length : forall k l, (length (snd (scan k l)) <= length l)%nat.
+Proof.
+  induction k as [|k IH]; intros l; simpl; auto.
+  destruct l as [|[v|e] l]; simpl; try lia. specialize (IH l). lia.
+Qed.
+
+(* the discarding loop of skip / step over an inner iterator that denotes l *)
+Lemma discard_sem : forall b k it l, Sem it l ->
+  exists n t it', discard (step n Fwd) b k it = Some (t, fst (scan k l), it') /\ Sem it' (snd (scan k l)).
+Proof.
+  intro b. induction k as [|k IH]; intros it l H.
+  - exists 0%nat, [], it. simpl. auto.
+  - destruct l as [|x l].
+    + destruct (Sem_nil_inv _ H) as (t & it' & [n HN] & HS).
+      destruct b.
+      * exists n, t, it'. simpl. unfold bind. rewrite HN. auto.
+      * destruct (IH it' [] HS) as (n2 & t2 & it2 & HD & HS2). rewrite scan_nil in HD, HS2. simpl in HD, HS2.
+        exists (Nat.max n n2), (t ++ t2), it2. simpl. unfold bind.
+        rewrite (step_mono _ _ _ _ HN (Nat.max n n2) ltac:(lia)).
+        rewrite (discard_mono _ _ (mono_nx n2 (Nat.max n n2) ltac:(lia)) _ _ _ _ HD). auto.
+    + destruct (Sem_cons_inv _ _ _ H) as (t & o & it' & [n HN] & HC & HS).
+      destruct x as [v|e].
+      * destruct (IH it' l HS) as (n2 & t2 & it2 & HD & HS2).
+        exists (Nat.max n n2), (t ++ t2), it2. simpl. unfold bind.
+        rewrite (step_mono _ _ _ _ HN (Nat.max n n2) ltac:(lia)).
+        rewrite (discard_mono _ _ (mono_nx n2 (Nat.max n n2) ltac:(lia)) _ _ _ _ HD).
+        destruct o; try discriminate HC; auto.
+      * destruct o; try discriminate HC. simpl in HC. inversion HC; subst.
+        exists n, t, it'. simpl. unfold bind. rewrite HN. auto.
+Qed.
+
 Lemma Sem_skip0 : forall it l, Sem it l -> Sem (Skip it 0) l.
 Proof.
   intros it l H k. revert it l H. induction k as [|k IH]; simpl; auto. intros it l H.
@@ -464,55 +498,65 @@ Qed.
 Lemma Sem_skip : forall it l n, Sem it l -> Sem (Skip it n) (spec_skip n l).
 Proof.
   intros it l n H. unfold spec_skip.
-  destruct (0 <? n) eqn:E.
-  2:{ apply N.ltb_ge in E. assert (n = 0) by lia. subst. simpl. apply Sem_skip0; auto. }
-  destruct (advance_sem (N.to_nat n) it l H) as (m & t & ok & it1 & HA & HS & Hok).
-  destruct ok.
-  - destruct (skipn (N.to_nat n) l) as [|x l'] eqn:EL.
+  destruct (discard_sem true (N.to_nat n) it l H) as (m & t & it1 & HD & HS).
+  destruct (scan (N.to_nat n) l) as [[e|] rest]; simpl in HD, HS.
+  - change (RErr e) with (collect (OErr e)).
+    eapply Sem_cons_intro with (t := t) (it' := Skip it1 0); [|apply Sem_skip0; auto].
+    exists (S m). cbn [step]. unfold bind. rewrite HD. reflexivity.
+  - destruct rest as [|x l'].
     + destruct (Sem_nil_inv _ HS) as (t2 & it2 & [m2 HN] & HS2).
       eapply Sem_nil_intro with (t := t ++ t2) (it' := Skip it2 0); [|apply Sem_skip0; auto].
-      exists (S (Nat.max m m2)). cbn [step]. rewrite E. unfold bind, nth_, bind.
-      rewrite (advance_mono _ _ (mono_nx m (Nat.max m m2) ltac:(lia)) _ _ _ HA).
+      exists (S (Nat.max m m2)). cbn [step]. unfold bind.
+      rewrite (discard_mono _ _ (mono_nx m (Nat.max m m2) ltac:(lia)) _ _ _ _ HD).
       rewrite (step_mono _ _ _ _ HN (Nat.max m m2) ltac:(lia)). reflexivity.
     + destruct (Sem_cons_inv _ _ _ HS) as (t2 & o & it2 & [m2 HN] & HC & HS2). subst x.
       eapply Sem_cons_intro with (t := t ++ t2) (it' := Skip it2 0); [|apply Sem_skip0; auto].
-      exists (S (Nat.max m m2)). cbn [step]. rewrite E. unfold bind, nth_, bind.
-      rewrite (advance_mono _ _ (mono_nx m (Nat.max m m2) ltac:(lia)) _ _ _ HA).
+      exists (S (Nat.max m m2)). cbn [step]. unfold bind.
+      rewrite (discard_mono _ _ (mono_nx m (Nat.max m m2) ltac:(lia)) _ _ _ _ HD).
       rewrite (step_mono _ _ _ _ HN (Nat.max m m2) ltac:(lia)). reflexivity.
-  - rewrite (Hok eq_refl) in *.
-    eapply Sem_nil_intro with (t := t) (it' := Skip it1 0); [|apply Sem_skip0; auto].
-    exists (S m). cbn [step]. rewrite E. unfold bind, nth_, bind. rewrite HA. reflexivity.
 Qed.
 
-Lemma every_from_skipn : forall k c l, every_from k c l = every_from k 0 (skipn c l).
+Lemma step_spec_nil : forall f s1, step_spec f s1 [] = [].
+Proof. destruct f; reflexivity. Qed.
+
+Lemma Sem_step_f : forall s, 0 < s -> forall k f it l, (length l <= f)%nat -> Sem it l ->
+  Semk k (Step it s) (step_spec f (N.to_nat (s - 1)) l).
 Proof.
-  intros k c. induction c as [|c IH]; intros l; simpl; auto.
-  destruct l as [|r l]; simpl; auto.
+  intros s Hs. induction k as [|k IH]; intros f it l Hf H; [simpl; auto|].
+  destruct l as [|x l].
+  - rewrite step_spec_nil.
+    destruct (Sem_nil_inv _ H) as (t & it' & [n HN] & HS).
+    destruct (discard_sem false (N.to_nat (s - 1)) it' [] HS) as (n2 & t2 & it2 & HD & HS2).
+    rewrite scan_nil in HD, HS2. simpl in HD, HS2.
+    simpl. exists (t ++ t2), (Step it2 s). split.
+    { exists (S (Nat.max n n2)). cbn [step]. unfold bind.
+      rewrite (step_mono _ _ _ _ HN (Nat.max n n2) ltac:(lia)).
+      rewrite (discard_mono _ _ (mono_nx n2 (Nat.max n n2) ltac:(lia)) _ _ _ _ HD). reflexivity. }
+    specialize (IH f it2 [] ltac:(simpl; lia) HS2). rewrite step_spec_nil in IH. exact IH.
+  - destruct f as [|f]; [simpl in Hf; lia|].
+    destruct (Sem_cons_inv _ _ _ H) as (t & o & it' & [n HN] & HC & HS).
+    destruct (discard_sem false (N.to_nat (s - 1)) it' l HS) as (n2 & t2 & it2 & HD & HS2).
+    pose proof (scan_length (N.to_nat (s - 1)) l) as HL.
+    change (step_spec (S f) (N.to_nat (s - 1)) (x :: l)) with
+      (match scan (N.to_nat (s - 1)) l with
+       | (Some e, rest) => RErr e :: step_spec f (N.to_nat (s - 1)) rest
+       | (None, rest) => x :: step_spec f (N.to_nat (s - 1)) rest
+       end).
+    destruct (scan (N.to_nat (s - 1)) l) as [[e|] rest]; simpl in HD, HS2, HL.
+    + simpl. exists (t ++ t2), (OErr e), (Step it2 s). split.
+      { exists (S (Nat.max n n2)). cbn [step]. unfold bind.
+        rewrite (step_mono _ _ _ _ HN (Nat.max n n2) ltac:(lia)).
+        rewrite (discard_mono _ _ (mono_nx n2 (Nat.max n n2) ltac:(lia)) _ _ _ _ HD). reflexivity. }
+      split; auto. apply IH; auto. simpl in Hf. lia.
+    + simpl. exists (t ++ t2), o, (Step it2 s). split.
+      { exists (S (Nat.max n n2)). cbn [step]. unfold bind.
+        rewrite (step_mono _ _ _ _ HN (Nat.max n n2) ltac:(lia)).
+        rewrite (discard_mono _ _ (mono_nx n2 (Nat.max n n2) ltac:(lia)) _ _ _ _ HD). reflexivity. }
+      split; auto. apply IH; auto. simpl in Hf. lia.
 Qed.
 
 Lemma Sem_step : forall it l s, 0 < s -> Sem it l -> Sem (Step it s) (spec_step s l).
-Proof.
-  intros it l s Hs H k. revert it l H. unfold spec_step.
-  induction k as [|k IH]; simpl; auto. intros it l H.
-  destruct l as [|x l]; simpl.
-  - destruct (Sem_nil_inv _ H) as (t & it' & [n HN] & HS).
-    destruct (pull_ignore_sem (N.to_nat (s - 1)) it' [] HS) as (n2 & t2 & it2 & HP & HS2).
-    rewrite skipn_nil in HS2.
-    exists (t ++ t2), (Step it2 s). split.
-    { exists (S (Nat.max n n2)). cbn [step]. unfold bind.
-      rewrite (step_mono _ _ _ _ HN (Nat.max n n2) ltac:(lia)).
-      rewrite (pull_ignore_mono _ _ (mono_nx n2 (Nat.max n n2) ltac:(lia)) _ _ _ HP). reflexivity. }
-    apply (IH it2 [] HS2).
-  - destruct (Sem_cons_inv _ _ _ H) as (t & o & it' & [n HN] & HC & HS).
-    destruct (pull_ignore_sem (N.to_nat (s - 1)) it' l HS) as (n2 & t2 & it2 & HP & HS2).
-    exists (t ++ t2), o, (Step it2 s). split.
-    { exists (S (Nat.max n n2)). cbn [step]. unfold bind.
-      rewrite (step_mono _ _ _ _ HN (Nat.max n n2) ltac:(lia)).
-      rewrite (pull_ignore_mono _ _ (mono_nx n2 (Nat.max n n2) ltac:(lia)) _ _ _ HP). reflexivity. }
-    split; auto.
-    rewrite every_from_skipn. replace (N.to_nat s - 1)%nat with (N.to_nat (s - 1)) by lia.
-    apply IH; auto.
-Qed.
+Proof. intros it l s Hs H k. apply Sem_step_f; auto. Qed.
 
 (* ================================================================================ *)
 (* composition: pipelines of any depth                                               *)
